@@ -95,6 +95,7 @@ type SZone struct {
 	NegTTL    uint32
 	Incep     time.Time
 	Expir     time.Time
+	Tag       string            // folded into generated RDATA
 	AOverride map[string]string // owner -> IPv4 for address records planted for other zones' NS hosts
 	NoDS      bool              // signed, but the parent publishes no DS: an island, provably insecure
 	WrongDS   bool              // the parent publishes a DS that matches no key: bogus
@@ -135,7 +136,7 @@ func (z *SZone) RRset(owner string, t uint16) []dns.RR {
 		return nil
 	}
 	hdr := dns.RR_Header{Name: owner, Rrtype: t, Class: dns.ClassINET, Ttl: z.TTLOf(owner, t)}
-	h := hash32(owner)
+	h := hash32(owner + z.Tag)
 	switch t {
 	case dns.TypeSOA:
 		return []dns.RR{&dns.SOA{Hdr: hdr, Ns: z.NSHosts[0], Mbox: "hostmaster." + strings.TrimPrefix(z.Apex, "."), Serial: 1, Refresh: 3600, Retry: 600, Expire: 86400, Minttl: z.NegTTL}}
@@ -191,7 +192,7 @@ func (z *SZone) RRset(owner string, t uint16) []dns.RR {
 		ip[12], ip[13], ip[14], ip[15] = byte(h>>24), byte(h>>16), byte(h>>8), byte(h)
 		return []dns.RR{&dns.AAAA{Hdr: hdr, AAAA: ip}}
 	case dns.TypeTXT:
-		return []dns.RR{&dns.TXT{Hdr: hdr, Txt: []string{"v=" + owner}}}
+		return []dns.RR{&dns.TXT{Hdr: hdr, Txt: []string{"v=" + owner + z.Tag}}}
 	case dns.TypeMX:
 		return []dns.RR{&dns.MX{Hdr: hdr, Preference: 10, Mx: "t." + z.Apex}}
 	case dns.TypeCNAME:
